@@ -215,8 +215,16 @@ def run_unit(unit, variant, multiple_errors=20, extra_args=(), rlimit=None, inli
         unit_rl = mrl.group(1) if mrl else None
     except OSError:
         pass
+    # `//@ smtopt key=value` in unit.rs: a Z3 option for this unit (a search-strategy option only; used where one function is a long
+    # chain of conditional writes and Z3's default case splitting explores the 2^n paths one by one)
+    unit_smt = []
+    try:
+        for mo in re.finditer(r"^//@\s*smtopt\s+([\w.]+=[\w.]+)\s*$", open(tmpl).read(), re.M):
+            unit_smt += ["--smt-option", mo.group(1)]
+    except OSError:
+        pass
     cmd = ["verus", fname, "--output-json", "--time", "--multiple-errors", str(multiple_errors),
-           "--error-format=json", "--rlimit", str(rlimit or unit_rl or RLIMIT)] + list(extra_args)
+           "--error-format=json", "--rlimit", str(rlimit or unit_rl or RLIMIT)] + unit_smt + list(extra_args)
     ur.cmd = " ".join(cmd)
     try:
         p = subprocess.run(cmd, cwd=run_dir, capture_output=True, text=True, timeout=int(os.environ.get("VERIF_VERUS_TIMEOUT", "900")))
